@@ -620,6 +620,14 @@ class Node:
         Returns:
             the new :class:`~nutree.node.Node` instance
         """
+        # Validate `before` first: we must not create (and register) the new
+        # node and then fail
+        if isinstance(before, Node) and before._parent is not self:
+            raise ValueError(
+                f"`before=node` ({before._parent}) "
+                f"must be a child of target node ({self})"
+            )
+
         if isinstance(child, self._tree.__class__):
             if deep is None:
                 deep = True
@@ -663,17 +671,11 @@ class Node:
 
         children = self._children
         if children is None:
-            assert before in (None, True, int, False)
             self._children = [node]
         elif isinstance(before, int):
             children.insert(before, node)
         elif before:
-            if before._parent is not self:
-                raise ValueError(
-                    f"`before=node` ({before._parent}) "
-                    f"must be a child of target node ({self})"
-                )
-            idx = _index_of(children, before)  # raises ValueError
+            idx = _index_of(children, before)
             children.insert(idx, node)
         else:
             children.append(node)
